@@ -59,9 +59,19 @@ def arm(name):
 
 def err_kind(e: BaseException) -> str:
     c = common.err_class(e)
+    m = str(e)
+    if c == "type" and "invalid leaf version type" in m:
+        return "err vtype"
+    if c == "type" and "invalid tapscript type" in m:
+        return "err stype"
     if c != "value":
         return "err " + (c if not c.startswith("foreign") else "foreign")
-    m = str(e)
+    if "invalid script tree node" in m:
+        return "err node"
+    if "invalid script tree leaf" in m:
+        return "err leaf"
+    if "invalid leaf version" in m:
+        return "err version"
     if "control block too long" in m:
         return "err toolong"
     if "invalid control block length" in m:
@@ -208,6 +218,160 @@ def gen_trees(ctx):
     return out
 
 
+# ------------------------------------------------------------------ arbitrary Python values (what reaches tree_helper)
+# AST: ("I", int) | ("A", truthy, k) | ("C", scriptbytes) | ("E", is_list) | ("O", is_list, x) | ("T", is_list, x, y)
+#      | ("M", is_list, k)            token grammar: see lean/Driver/C12Main.lean
+ATOMS_T = ["ab", b"x", 1.5, True, {"a": 1}, frozenset([1]), bytearray(b"\x51"), range(2), "OP_1", b"\xc0" * 34]
+ATOMS_F = [None, "", b"", False, 0.0, {}, bytearray(), range(0)]
+_GOOD_LEAF = ("O", True, ("T", False, ("I", 0xC0), ("C", b"\x51")))
+
+
+def py_tok(a) -> str:
+    k = a[0]
+    lt = lambda b: "l" if b else "t"  # noqa: E731
+    if k == "I":
+        return f"I.{a[1]}"
+    if k == "A":
+        return f"A.{'t' if a[1] else 'f'}.{a[2]}"
+    if k == "C":
+        return f"C.{len(_script_list(a[1]))}.{hx(a[1])}"
+    if k == "E":
+        return f"E.{lt(a[1])}"
+    if k == "M":
+        return f"M.{lt(a[1])}.{a[2]}"
+    if k == "O":
+        return f"O.{lt(a[1])};{py_tok(a[2])}"
+    return f"T.{lt(a[1])};{py_tok(a[2])};{py_tok(a[3])}"
+
+
+def py_ast(tok: str):
+    toks = tok.split(";")
+    pos = [0]
+
+    def go():
+        t = toks[pos[0]].split(".")
+        pos[0] += 1
+        k = t[0]
+        if k == "I":
+            return ("I", int(t[1]))
+        if k == "A":
+            return ("A", t[1] == "t", int(t[2]))
+        if k == "C":
+            return ("C", unhx(t[2]))
+        if k == "E":
+            return ("E", t[1] == "l")
+        if k == "M":
+            return ("M", t[1] == "l", int(t[2]))
+        if k == "O":
+            return ("O", t[1] == "l", go())
+        x = go()
+        return ("T", t[1] == "l", x, go())
+    a = go()
+    if pos[0] != len(toks):
+        raise ValueError("trailing tokens")
+    return a
+
+
+def py_obj(a):
+    """the Python object an AST stands for"""
+    k = a[0]
+    seq = lambda is_list, xs: list(xs) if is_list else tuple(xs)  # noqa: E731
+    if k == "I":
+        return a[1]
+    if k == "A":
+        pool = ATOMS_T if a[1] else ATOMS_F
+        return pool[a[2] % len(pool)]
+    if k == "C":
+        return _script_list(a[1])
+    if k == "E":
+        return seq(a[1], [])
+    if k == "M":
+        return seq(a[1], [py_obj(_GOOD_LEAF) for _ in range(a[2] + 3)])
+    if k == "O":
+        return seq(a[1], [py_obj(a[2])])
+    return seq(a[1], [py_obj(a[2]), py_obj(a[3])])
+
+
+def py_of_tree(rng, tree):
+    """a well-formed AST for a python tree of this module, nodes and pairs spelled as lists or tuples at random"""
+    if len(tree) == 1:
+        v, script = tree[0]
+        return ("O", rng.random() < 0.6, ("T", rng.random() < 0.3, ("I", v), ("C", T.serialize(list(script)))))
+    return ("T", rng.random() < 0.6, py_of_tree(rng, tree[0]), py_of_tree(rng, tree[1]))
+
+
+def rand_junk(rng, depth=0):
+    r = rng.randrange(11)
+    b = rng.random() < 0.5
+    if r == 0:
+        return ("I", rng.choice([0, 1, -1, 0xC0, 2 ** 70]))
+    if r == 1:
+        return ("A", True, rng.randrange(16))
+    if r == 2:
+        return ("A", False, rng.randrange(16))
+    if r == 3:
+        return ("E", b)
+    if r == 4:
+        return ("M", b, rng.choice([0, 0, 1, 5]))
+    if r == 5:
+        return ("C", T.serialize(rng.choice([[], ["OP_1"], ["OP_1", "OP_2"], ["OP_1", "OP_2", "OP_DROP"], [b"\x01" * 32, "OP_CHECKSIG"]])))
+    if r == 6 and depth < 3:
+        return ("O", b, rand_junk(rng, depth + 1))
+    if r == 7 and depth < 3:
+        return ("T", b, rand_junk(rng, depth + 1), rand_junk(rng, depth + 1))
+    if r == 8:
+        return _GOOD_LEAF
+    if r == 9:   # a pair that is almost a leaf
+        ver = rng.choice([("I", rng.choice([0xC0, -1, -256, 2 ** 70, 0x1C1])), ("A", True, 3), ("A", False, 3), ("A", True, 2), ("A", False, 0)])
+        scr = rng.choice([("C", b"\x51"), ("C", b""), ("E", True), ("E", False), ("A", True, 1), ("A", False, 0), ("A", True, 6),
+                          ("O", False, ("A", True, 8)), ("I", 0x51), ("T", False, ("A", True, 8), ("A", True, 8))])
+        return ("O", b, ("T", rng.random() < 0.5, ver, scr))
+    return ("O", b, ("O", rng.random() < 0.5, ("I", 0xC0)))     # (version,) : not a pair
+
+
+def decodec(a):
+    """a non-empty LIST in the script position of a leaf pair is `taproot.serialize`'s to judge (the codec, outside the
+    model: `Err.codec`): spell it as a tuple, which `assert_type(script, list)` refuses"""
+    if a[0] == "O":
+        x = a[2]
+        if x[0] == "T" and x[3][0] in ("O", "T", "M") and x[3][1]:
+            x = ("T", x[1], x[2], (x[3][0], False) + tuple(x[3][2:]))
+        return ("O", a[1], x)
+    if a[0] == "T":
+        return ("T", a[1], decodec(a[2]), decodec(a[3]))
+    return a
+
+
+def mutate(rng, a):
+    """replace one random position of a (mostly well-formed) AST by junk"""
+    if a[0] in ("O", "T") and rng.random() < 0.7:
+        if a[0] == "O":
+            return ("O", a[1], mutate(rng, a[2]))
+        if rng.random() < 0.5:
+            return ("T", a[1], mutate(rng, a[2]), a[3])
+        return ("T", a[1], a[2], mutate(rng, a[3]))
+    return rand_junk(rng)
+
+
+# the shapes AUDIT2 names, spelled out: tree_helper([]), 1- and 3-element nodes, non-bytes / non-list leaves
+FIXED_PY = [("E", True), ("E", False), ("M", True, 0), ("M", False, 0), ("M", True, 7), ("O", True, _GOOD_LEAF),
+            ("O", True, ("O", True, _GOOD_LEAF)), ("T", True, _GOOD_LEAF, ("E", True)), ("T", True, ("E", True), _GOOD_LEAF),
+            ("T", True, _GOOD_LEAF, ("M", True, 0)), ("T", True, ("M", True, 0), ("A", True, 0)),
+            ("A", False, 0), ("A", True, 0), ("A", True, 1), ("I", 0), ("I", 7),
+            ("C", b""), ("C", b"\x51"), ("C", b"\x51\x52"), ("C", b"\x51\x52\x53"),
+            ("O", True, ("A", False, 0)), ("O", True, ("A", True, 1)), ("O", True, ("I", 0xC0)), ("O", True, ("C", b"\x51")),
+            ("O", True, ("O", False, ("I", 0xC0))), ("O", True, ("M", False, 0)), ("O", True, ("E", False)),
+            ("O", True, ("T", False, ("A", True, 3), ("C", b"\x51"))), ("O", True, ("T", False, ("A", False, 3), ("C", b"\x51"))),
+            ("O", True, ("T", False, ("A", True, 2), ("C", b"\x51"))), ("O", True, ("T", False, ("A", False, 0), ("C", b"\x51"))),
+            ("O", True, ("T", False, ("I", 0xC0), ("A", True, 1))), ("O", True, ("T", False, ("I", 0xC0), ("A", False, 0))),
+            ("O", True, ("T", False, ("I", 0xC0), ("O", False, ("A", True, 8)))), ("O", True, ("T", False, ("I", 0xC0), ("E", False))),
+            ("O", True, ("T", False, ("I", 0xC0), ("E", True))), ("O", True, ("T", False, ("I", 0xC0), ("I", 0x51))),
+            ("O", True, ("T", True, ("I", -1), ("C", b"\x51"))), ("O", False, ("T", True, ("I", 2 ** 70 + 0xC3), ("C", b"\x51"))),
+            ("O", True, ("T", False, ("I", -256), ("C", b""))), ("T", False, _GOOD_LEAF, _GOOD_LEAF),
+            ("T", True, ("I", 0xC0), ("C", b"\x51")),           # a bare pair where a node is expected
+            ("T", True, _GOOD_LEAF, ("T", True, _GOOD_LEAF, ("O", True, ("T", False, ("I", 0xC0), ("A", True, 1)))))]
+
+
 # ------------------------------------------------------------------ keys
 def spellings(rng, d):
     """every SEC spelling of the point d·G (and of its negation): (label, sec)"""
@@ -247,6 +411,17 @@ def _impl(op, a):
         return f"ok {hx(root)} " + "|".join(f"{v}:{hx(T.serialize(list(s)))}:{hx(p)}" for (v, s), p in info)
     if op == "leafhash":
         return "ok " + hx(T.leaf_hash(int(a[0]), unhx(a[1])))
+    if op == "pytree":
+        info, root = T.tree_helper(py_obj(py_ast(a[0])))
+        return f"ok {hx(root)} " + "|".join(f"{v}:{hx(T.serialize(list(s)))}:{hx(p)}" for (v, s), p in info)
+    if op == "outpubpy":
+        q, par = T.output_pubkey(None if a[0] == "-" else unhx(a[0]), py_obj(py_ast(a[1])))
+        return f"ok {hx(q)} {par}"
+    if op == "outprvpy":
+        return f"ok {T.output_prvkey(int(a[0]), py_obj(py_ast(a[1])))}"
+    if op == "isspy":
+        script, control = T.input_script_sig(None if a[0] == "-" else unhx(a[0]), py_obj(py_ast(a[1])), int(a[2]))
+        return f"ok {hx(T.serialize(list(script)))} {hx(control)}"
     if op == "outpub":
         q, par = T.output_pubkey(None if a[0] == "-" else unhx(a[0]), _opt_tree(a[1]))
         return f"ok {hx(q)} {par}"
@@ -825,6 +1000,10 @@ def run(ctx):
     for v in range(256):
         s = rand_script(rng, big=(v % 32 == 0)) if v % 4 else common.rand_bytes(rng, rng.choice([0, 1, 252, 253, 254, 600]))
         L["leafhash"].append(f"leafhash {v} {hx(s)}")
+    # … and the versions the public leaf_hash refuses (outside one byte): never wrapped
+    for v in [-1, -2, -192, -256, 256, 257, 256 + 0xC0, 511, 512, 1000, 2 ** 31, 2 ** 64, -(2 ** 64)] + \
+            [rng.choice([-1, 1]) * rng.randrange(256, 2 ** 40) for _ in range(ctx.n(8, 80))]:
+        L["leafhash"].append(f"leafhash {v} {hx(rand_script(rng))}")
     if ctx.tier == "thorough":
         L["leafhash"].append(f"leafhash 192 {hx(common.rand_bytes(rng, 65535))}")
         L["leafhash"].append(f"leafhash 192 {hx(common.rand_bytes(rng, 65536))}")
@@ -870,9 +1049,40 @@ def run(ctx):
         L["malformed"] += [f"check@{a} {hx(qs)} {hx(ss)} {hx(bytes([v]) + cs[1:])}" for v in (0, 1, 0xC1, 0xC2, 0xFF)]
         L["malformed"] += [f"check@{a} {hx(qs)} _ {hx(cs)}", f"check@{a} _ _ c0", f"check@{a} _ _ _"]
 
+    # tree_helper's own guards: ANY Python value — well-formed trees in list / tuple spellings, one position replaced
+    # by junk, the shapes AUDIT2 names — through tree_helper and through the three entry points that walk a tree
+    pys = list(FIXED_PY)
+    small_trees = [t for _, t in trees if n_leaves(t) <= 16]
+    for _ in range(ctx.n(120, 1500)):
+        a = py_of_tree(rng, rng.choice(small_trees))
+        r = rng.random()
+        if r < 0.25:
+            ctx.count("pytree shape", "well-formed")
+        elif r < 0.85:
+            a = mutate(rng, a)
+            ctx.count("pytree shape", "one position replaced")
+        else:
+            a = rand_junk(rng)
+            ctx.count("pytree shape", "junk")
+        pys.append(decodec(a))
+    L["pytree"] = [f"pytree {py_tok(a)}" for a in pys]
+    L["pyentry"] = []
+    dk = rng.randrange(1, N)
+    good = spellings(rng, dk)
+    keys = [hx(s) for _, s in good] + ["-", "_", hx(bad_secs(rng, dk)[0]), hx(b"\x05" + good[0][1][1:]),
+                                       hx(good[0][1][:5]), hx(good[0][1] + b"\x00"), hx(b"\x02" + P_FIELD.to_bytes(32, "big"))]
+    for a in FIXED_PY + rng.sample(pys[len(FIXED_PY):], ctx.n(40, 400)):
+        tk = py_tok(a)
+        for arm_ in arms:
+            kk = rng.choice(keys)
+            L["pyentry"] += [f"outpubpy@{arm_} {kk} {tk}", f"isspy@{arm_} {kk} {tk} {rng.choice([0, 0, 1, -1, 3])}",
+                             f"outprvpy@{arm_} {rng.choice([dk, dk, 0, N, 1])} {tk}"]
+
     for name in ("tree", "leafhash", "outpub", "outpubroot", "outprv", "outprvroot", "iss", "check", "check.mutated"):
         ctx.stream(name, L[name])
     ctx.stream("malformed", L["malformed"], nontrivial=lambda ln, out: True)
+    ctx.stream("pytree", L["pytree"], nontrivial=lambda ln, out: True)
+    ctx.stream("pyentry", L["pyentry"], nontrivial=lambda ln, out: True)
 
     # every single-bit alteration (small control blocks: all bits; deep ones: head + sample)
     rng.shuffle(flips)
